@@ -38,8 +38,16 @@ def impl(inp):
         a = agents[G.aid(i)]
         try:
             if kind == 0:
-                res = actors[0].process_action(a, {"move": np.array([op[2], op[3]])})
+                mv = np.array([op[2], op[3]])
+                res = actors[0].process_action(a, {"move": mv})
+                mv += 1000                      # the caller's array is the caller's: scribble on it
             else:
+                # a caller that looks an offset up through the public grid_action and then
+                # computes with the array it was handed (in place): the table must not change
+                for k in (0, 1, 2, 3, 4):
+                    off = actors[kind].grid_action(k)
+                    off *= 7
+                    off += 3
                 res = actors[kind].process_action(a, {"move": op[2]})
             r = 1 if res else 0
         except TimeoutError:
@@ -93,6 +101,23 @@ def legalise(ov, ags):
             a[3] = 0
             ok.append(False)
     return ok
+
+
+def gen_far(tier, rng):
+    """Very long corridors: coordinates beyond 100000, where a comparison of positions with a
+    relative tolerance (np.isclose / np.allclose, rtol 1e-5) takes neighbouring cells for equal.
+    Three agents only; every snapshot lists every cell, so just a few cases."""
+    for k in range(3 if tier != "thorough" else 12):
+        n = 100003 + rng.randint(0, 40)
+        c = n - 2 - rng.randint(0, 3)
+        horizontal = k % 2 == 0
+        at = (lambda x: (0, x)) if horizontal else (lambda x: (x, 0))
+        ags = [wagent(1, at(c), 3 if horizontal else 2), wagent(2, at(c - 1)), wagent(3, at(c + 1))]
+        ov = [[1, [3]]]          # the mover may step onto the agent ahead, not onto the one behind
+        fwd, back = (3, 1) if horizontal else (2, 4)
+        ops = [[1, 0, back], [1, 0, fwd], [2, 0, 0], [0, 0] + list(at(-1)), [0, 0] + list(at(1)), [2, 0, back]]
+        rng.shuffle(ops)
+        yield [1 if horizontal else n, n if horizontal else 1, ov, ags, ops[:4]]
 
 
 def gen(tier, rng):
@@ -208,3 +233,10 @@ COMPONENTS = [
     Component(1201, "move_actors", impl, gen, chk=1202, nontrivial=nontrivial, classify=classify,
               shrink=shrink),
 ]
+
+
+# very long corridors (coordinates beyond 100000): compared with the model only -- the extracted
+# checker walks every cell for every clause and would take minutes on 10^5 cells
+COMPONENTS.append(Component(1201, "far_corridor", impl, gen_far, chk=None,
+                            nontrivial=lambda i, o: True, classify=lambda i, o: "far/" + ("row" if i[0] == 1 else "column"),
+                            timeout=60))
